@@ -133,8 +133,12 @@ class XyeEngine(Engine):
         r = rng.random()
         if r < 0.12:
             n = 1
-        elif r < 0.85:
+        elif r < 0.70:
             n = rng.randrange(2, 60)
+        elif r < 0.85:
+            # around multiples of plausible block sizes: k*B - 1, k*B, k*B + 1
+            b = rng.choice([10, 100, 1000, 1000, 128, 256, 512, 1024, 2048, 4096, 8192])
+            n = max(1, min(10000, b * rng.randrange(1, max(2, 10000 // b + 1)) + rng.choice([-1, 0, 1])))
         else:
             n = int(10 ** rng.uniform(2, 4))
         compact = n > 200
